@@ -76,12 +76,13 @@ PROPS.update({
                    "that the document a step returns is valid at every node (oracle validity) for all eight step kinds, directly and through JSON, with well-formed and malformed (out-of-range, out-of-order) positions, nested / open wrapper slices; replace_outer / replace_two_way / replace_three_way recursion is outside the proved set (trusted contracts listed in the evidence).",
                    assumptions=("A1", "A4", "A5", "A6", "A9", "A10", "Z3", "PYVC"), min_obligations=170, shards={"ReplaceAroundStep.apply": 4, "insert_into": 4},
                    bounded_only=["validity of every node of the returned document", "replace_outer / replace_two_way / replace_three_way / remove_range recursion", "mark / attribute / node-mark step apply bodies", "Step.from_json decoding"]),
-    "C02": _hybrid("C02", "c02", ["contracts.model_core"],
+    "C02": _hybrid("C02", "c02", ["contracts.model_replace"],
                    "the size / index algebra replace and slice are built from: Fragment.__init__ (size == sum of child sizes, class invariant proved at every construction), find_index (offset == prefix sum, "
                    "position at the boundary or strictly inside the child selected by the rounding side, termination), cut_by_index, replace_child, add_to_start, add_to_end (content and size), child / maybe_child / first_child / last_child, node_size, "
-                   "with the prefix-sum lemmas proved by induction.",
+                   "with the prefix-sum lemmas proved by induction; the join and validation points of replace: close (rebuilt node valid at its level or ReplaceError), check_join / joinable / NodeType.compatible_content (raise exactly on incompatible content), "
+                   "replace() guards (inverted range, slice open deeper than its content, depth mismatch), Node.replace range errors.",
                    "that Node.slice / Node.replace are exactly a splice of the flat token sequence (token oracle for every range of small documents and a pool of foreign slices); replace_outer / replace_two_way / replace_three_way / close / join recursion is outside the proved set.",
-                   assumptions=("A1", "A4", "A5", "A6", "A7", "A9", "A10", "Z3", "PYVC"), min_obligations=90,
+                   assumptions=("A1", "A4", "A5", "A6", "A7", "A9", "A10", "Z3", "PYVC"), min_obligations=180,
                    bounded_only=["token-level splice semantics of Node.replace / Node.slice", "Fragment.cut / append / from_array (text merging)", "schema validity of the result"]),
     "C03": _hybrid("C03", "c03", ["contracts.transform_steps"],
                    "the shape of every step's map (ReplaceStep / ReplaceAroundStep.get_map ranges from the step's fields, empty map for attribute / mark steps), "
